@@ -289,6 +289,8 @@ def named_type_modules(start, upper):
     mods = []
     n = start
     cands = [u for u in ['H', 'V', 'M', 'Educe__RawString', 'Educe__DebugField'] if u in upper or u in ('H', 'V', 'M')]
+    # user types named like library types a handler might recognise by name (a `PhantomData` that is not core's carries data)
+    cands += ['PhantomData', 'String']
     for g in cands:
         body = f'''pub mod hostile {{
     #![allow(non_camel_case_types)]
@@ -453,8 +455,11 @@ def field_type_inherent_modules(start):
     """field types with inherent methods named like the trait methods (and misbehaving): every template must reach the trait impl"""
     body = '''use crate::support::dbg::*;
 #[derive(Educe)]
-#[educe(Debug, Clone, PartialEq, Eq, PartialOrd, Ord, Hash, Default)]
-pub struct St { pub a: Inh, pub b: u8 }
+#[educe(Debug, Clone, PartialEq, Eq, PartialOrd, Ord, Hash, Default, Into(u16))]
+pub struct St { #[educe(Into(u16))] pub a: Inh, pub b: u8 }
+#[derive(Educe)]
+#[educe(Into(u16))]
+pub enum EI { A(#[educe(Into(u16))] Inh, u8), B { x: Inh } }
 #[derive(Educe)]
 #[educe(Debug, Clone, PartialEq, Eq, PartialOrd, Ord, Hash, Default)]
 pub struct Tu(pub u8, pub Inh);
@@ -497,6 +502,11 @@ fn key(e: &En) -> (u8, u8, u8) { match e { En::A(i, v) => (0, i.0, *v), En::B { 
     core::hash::Hash::hash(&Inh(p), &mut want);
     core::hash::Hash::hash(&q, &mut want);
     assert!(ra.same(&want), "hash went through the inherent hash of the field type");
+    let i16_: u16 = ::core::convert::Into::into(a);
+    assert!(i16_ == p as u16 + 256, "Into went through the inherent into of the field type");
+    let e = if kani::any::<u8>() & 1 == 1 { EI::A(Inh(r), s) } else { EI::B { x: Inh(r) } };
+    let e16: u16 = ::core::convert::Into::into(e);
+    assert!(e16 == r as u16 + 256, "enum Into went through the inherent into of the field type");
 }
 '''
     hs.append(h)
